@@ -240,7 +240,7 @@ def run_check(tier, seed):
         # ---- S4c "mix" programs: varn calls with many permuted segments, several interleaving nonblocking requests per wait
         nmix = 120 if tier == 'thorough' else 40
         mlines, mtags, mfail, _ = apicmp.run_programs(
-            V, exe, wd, ((apigen.gen_mix_program(rng, 'c01m_%d.nc' % k, n_), n_) for k in range(nmix) for n_ in [rng.choice([1, 1, 2, 3])]),
+            V, exe, wd, ((apigen.gen_mix_program(rng, 'c01m_%d.nc' % k, n_, focus=[None, None, 'burst', 'recvarn'][k % 4]), n_) for k in range(nmix) for n_ in [rng.choice([1, 1, 2, 3])]),
             tier, 'C01:api-mix', 'multi-request program (varn segments / interleaving nonblocking requests) disagrees with the dataset specification',
             tagprefix='mix') if api_fail < 3 else (0, {}, 0, 0)
         api_lines += mlines
